@@ -257,21 +257,22 @@ def cases(run):
     global EXHAUSTIVE_NOTE
     rng = run.rng
     quick = run.tier == "quick"
-    nf = 7 if quick else 10            # genome length of the exhaustive feature / transcript scope
+    nf = 7 if quick else 10            # genome length of the exhaustive feature scope
+    nt = 6 if quick else 9             # ... of the exhaustive non-coding transcript scope
     cds_scopes = [(1, 6), (2, 3)] if quick else [(1, 8), (2, 4)]
-    EXHAUSTIVE_NOTE = (f"FeatureInterval and non-coding TranscriptInterval: every layout of 1-2 blocks on a genome of length {nf}, "
+    EXHAUSTIVE_NOTE = (f"FeatureInterval (non-coding TranscriptInterval): every layout of 1-2 blocks on a genome of length {nf} ({nt}), "
                        f"both strands, every chunk window, chunk on + and -; CDSInterval: " +
                        ", ".join(f"{k} exon(s) of length 1..{m}" for k, m in cds_scopes) +
                        " with gaps 0/1/2, both strands, all 3^k frame vectors, every chunk window over the CDS span +-1, "
                        "chunk on + and -; coding TranscriptInterval / GeneInterval / FeatureIntervalCollection / "
                        "AnnotationCollection: every window of a genome of length <= 12 for a fixed family of small objects")
     # ---- 1. features and non-coding transcripts, exhaustive
-    seq = letters(rng, nf)
-    for bl in layouts_on(nf):
-        for st in "+-":
-            for cls in "FT":
+    for cls, n in (("F", nf), ("T", nt)):
+        seq = letters(rng, n)
+        for bl in layouts_on(n):
+            for st in "+-":
                 d = ("F", st, bl) if cls == "F" else ("T", st, bl, [])
-                for ws, we in all_windows(nf):
+                for ws, we in all_windows(n):
                     for wst in "+-":
                         count_window(run, cls, d, ws, we, wst)
                         yield line("loc", seq, ws, we, wst, d)
@@ -308,6 +309,8 @@ def cases(run):
                 fam.append(tx_around(rng, st, exons, fv))
             fv = [rng.randrange(3) for _ in exons]
             fam.append(tx_around(rng, st, exons, fv))
+    if quick:
+        fam = fam[rng.randrange(2)::2]
     n = max(span_of(d)[1] for d in fam) + 1
     seq = letters(rng, n)
     for d in fam:
